@@ -111,6 +111,7 @@ SOCKET_OPTIONS = {
 }
 
 _REF = re.compile(r'\$\(circus\.env\.([A-Za-z0-9_]+)\)|\(\(circus\.env\.([A-Za-z0-9_]+)\)\)', re.I)
+REFERENCE = _REF
 _SHELLVAR = re.compile(r'\$([A-Za-z_][A-Za-z0-9_]*)')
 
 
@@ -283,6 +284,8 @@ def read(path, environ, sys_path=None):
 
     w, d = _fill(CIRCUS_OPTIONS, [(k, v) for k, v in by_name.get('circus', [])
                                   if k not in ('include', 'include_dir')], base)
+    if 'stats_endpoint' in w and not w.get('statsd', False):
+        raise Undefined('stats_endpoint without statsd = True')
     result['circus'] = {'written': w, 'defaults': d}
 
     env_sections = []          # in file order: ([patterns], {var: raw text})
